@@ -32,8 +32,10 @@ class C17(core.Property):
   ID = 'C17'
   RULE = ('five invariant families on multi-round histories (3..6 rounds; small populations with repeated participation): '
           'agnostic FedAvg with 2..3 domains, window 1..3 and rounds in which a domain has no example; APFL with per-leaf '
-          'coefficients and learning rates that drive them out of [0,1]; HypCluster with 2..3 clusters and clusters that get '
-          'no client; MimeLite with clip norms around the observed delta norms; ignore_grads_haiku on haiku-shaped trees with '
+          'coefficients and learning rates that drive them out of [0,1], training rounds interleaved with calls of the real '
+          'evaluation entry point on trained, held-out and mixed client sets (table keys / state unchanged checked after '
+          'every step); HypCluster with 2..3 clusters and clusters that get no client, interleaved with HypClusterEvaluator '
+          'calls; MimeLite with clip norms around the observed delta norms; ignore_grads_haiku on haiku-shaped trees with '
           'sgd/momentum/adam; non-trivial = the interesting branch is hit (absent domain / coefficient actually clipped and '
           'moved / an empty and a non-empty cluster / a clipped and an unclipped client / frozen and trainable entries with '
           'non-zero gradients); distinct by case digest')
@@ -71,6 +73,24 @@ class C17(core.Property):
 
     self.pel = {False: make_pel(False), True: make_pel(True)}
     self.grad_fn = {k: models.grad(v) for k, v in self.pel.items()}
+
+    # the real evaluation entry points (APFL personalised evaluation, HypClusterEvaluator) on a Model of the fixture:
+    # the sign of the regression output is a two-class prediction, scored by Accuracy against the label y > 0
+    from fedjax.core import metrics
+
+    def apply_for_eval(params, batch):
+      pred = batch['x'] @ vec(params)
+      return jnp.stack([-pred, pred], axis=-1)
+
+    def train_loss(batch, preds):
+      return 0.5 * (preds - batch['y']) ** 2
+
+    self.eval_model = models.Model(init=None, apply_for_train=lambda params, batch, rng: batch['x'] @ vec(params),
+                                   apply_for_eval=apply_for_eval, train_loss=train_loss,
+                                   eval_metrics={'accuracy': metrics.Accuracy()})
+    self.apfl_eval = apfl.eval_adaptive_personalized_federated_learning(
+        self.eval_model, client_datasets.PaddedBatchHParams(batch_size=2))
+    self.hyp_eval = hyp_cluster.HypClusterEvaluator(self.eval_model)
 
     class RecDataset(client_datasets.ClientDataset):
       def __init__(self, raw, train_log, pad_log):
@@ -155,11 +175,17 @@ class C17(core.Property):
                'rounds': rounds}
       elif fam == 'apfl':
         pop = self._population(rng, 4, 3, sizes=(0, 2, 3, 4, 5), xs=(-1, 0, 1))
+        held_out = self._population(rng, 6, 3, sizes=(2, 3), xs=(-1, 0, 1))[4:]     # never sampled for training
         rounds = [[dict(pop[j]) for j in rng.sample(range(4), rng.choice([1, 2, 3]))]
                   for _ in range(rng.choice([3, 4, 5, 6]))]
+        # evaluation calls interleaved with the training rounds: slot k is evaluated before round k (the last slot
+        # after the last round), on trained clients, held-out clients, or a mix
+        everyone = [c for c in pop + held_out if len(c['y'])]
+        evals = [([dict(c) for c in rng.sample(everyone, rng.randrange(1, len(everyone) + 1))]
+                  if rng.random() < 0.55 else []) for _ in range(len(rounds) + 1)]
         yield {**base, 'copt': [rng.choice(['sgd', 'momentum']), rng.choice([0.25, 0.5, 0.125]), 0.5],
                'coef0': rng.choice([0.0, 0.25, 0.5, 1.0]), 'w0': [rng.choice([-1, 0, 1, 2]) for _ in range(3)],
-               'keyed': rng.random() < 0.4, 'rounds': rounds}
+               'keyed': rng.random() < 0.4, 'rounds': rounds, 'evals': evals}
       elif fam == 'hyp':
         K = rng.choice([2, 2, 3])
         pop = self._population(rng, 4, 2, sizes=(0, 1, 2, 3, 4))
@@ -168,7 +194,11 @@ class C17(core.Property):
         clusters = [[rng.choice([-2, -1, 0, 1, 2, 3]) for _ in range(2)] for _ in range(K)]
         if rng.random() < 0.3:
           clusters[-1] = [9, -9]       # a cluster far from every client: nobody is assigned to it
-        yield {**base, 'K': K, 'clusters': clusters, 'rounds': rounds}
+        # HypClusterEvaluator calls interleaved with the training rounds (slot k before round k, last slot at the end)
+        nonempty = [c for c in pop if len(c['y'])]
+        evals = [([dict(c) for c in rng.sample(nonempty, rng.randrange(1, len(nonempty) + 1))]
+                  if nonempty and rng.random() < 0.4 else []) for _ in range(len(rounds) + 1)]
+        yield {**base, 'K': K, 'clusters': clusters, 'rounds': rounds, 'evals': evals}
       elif fam == 'clip':
         clip = rng.choice([0.0625, 0.25, 0.5, 1.0, 4.0, 0.0])
         # bound 0 ("no update may pass") is legal; clients without examples are left out there because a
@@ -194,13 +224,20 @@ class C17(core.Property):
   def shrink(self, case):
     if 'rounds' in case:
       rs = case['rounds']
+      ev = case.get('evals')
       if len(rs) > 1:
-        yield {**case, 'rounds': rs[:-1]}
-        yield {**case, 'rounds': rs[1:]}
+        yield {**case, 'rounds': rs[:-1], **({'evals': ev[:-1]} if ev else {})}
+        yield {**case, 'rounds': rs[1:], **({'evals': ev[1:]} if ev else {})}
       for ri, cohort in enumerate(rs):
         if len(cohort) > 1:
           for ci in range(len(cohort)):
             yield {**case, 'rounds': rs[:ri] + [cohort[:ci] + cohort[ci + 1:]] + rs[ri + 1:]}
+    if case.get('evals') and 'rounds' in case and len(case['evals']) == len(case['rounds']) + 1:
+      for k, ev in enumerate(case['evals']):
+        if ev:
+          yield {**case, 'evals': case['evals'][:k] + [[]] + case['evals'][k + 1:]}
+          if len(ev) > 1:
+            yield {**case, 'evals': case['evals'][:k] + [ev[:-1]] + case['evals'][k + 1:]}
     if 'steps' in case and len(case['steps']) > 1:
       yield {**case, 'steps': case['steps'][:-1]}
 
@@ -399,7 +436,72 @@ class C17(core.Property):
     seen, impl, mcohorts = [], [], []
     moved = clipped_edge = False
     scale = 1.0 + float(np.max(np.abs(w0)))
+    evals = case.get('evals') or [[] for _ in range(len(case['rounds']) + 1)]
+    eval_log = []          # (slot, [(id, x, labels, implementation accuracy)])
+    held_out_evaluated = False
+
+    def table_of(st):
+      t = {}
+      for cid, cs in st.client_states.items():
+        # one coefficient per leaf (a scalar; tolerate an array-valued leaf and read its first entry)
+        coefs = [float(np.asarray(cs.interpolation_coefficients[k], np.float64).reshape(-1)[0]) for k in ('a', 'b')]
+        cp = np.concatenate([np.asarray(cs.params['a'], np.float64), np.asarray(cs.params['b'], np.float64)])
+        t[cid] = (coefs, cp)
+      return t
+
+    def raw_of(st):
+      return (sorted((cid, [np.asarray(l).tobytes() for l in self.jax.tree_util.tree_leaves(cs)])
+                     for cid, cs in st.client_states.items()),
+              [np.asarray(l).tobytes() for l in self.jax.tree_util.tree_leaves((st.params, st.opt_state))])
+
+    def accuracy_bounds(p, x, labels):
+      """(certainly correct, uncertain) counts of the sign classifier x @ p against labels"""
+      pred = np.asarray(x, np.float64) @ np.asarray(p, np.float64)
+      unsure = np.abs(pred) < 1e-4 * (1.0 + float(np.max(np.abs(p))))
+      ok = ((pred > 0).astype(int) == np.asarray(labels)) & ~unsure
+      return int(np.sum(ok)), int(np.sum(unsure))
+
+    def evaluation(slot, st):
+      """calls the real APFL evaluation on `st`; evaluation must not touch the server state"""
+      nonlocal held_out_evaluated
+      ev = evals[slot] if slot < len(evals) else []
+      if not ev:
+        return
+      before = raw_of(st)
+      ecl = [(c['id'], self.cds.ClientDataset({'x': np.asarray(c['x'], np.float32).reshape(len(c['y']), 3),
+                                                'y': (np.asarray(c['y']) > 0).astype(np.int32)})) for c in ev]
+      res = dict(self.apfl_eval(st, ecl))
+      where = f'evaluation before round {slot}' if slot < len(case['rounds']) else 'evaluation after the last round'
+      if sorted(res) != sorted(c['id'] for c in ev):
+        problems.append(f'{where}: results for {sorted(res)}, evaluated {sorted(c["id"] for c in ev)}')
+        return
+      t = table_of(st)
+      if sorted(t) != sorted(seen):
+        problems.append(f'{where} of {[c["id"] for c in ev]}: client state is stored for {sorted(t)}, but only '
+                        f'{sorted(seen)} have taken part in training')
+      elif raw_of(st) != before:
+        problems.append(f'{where}: evaluation changed the server state it was given')
+      sp = np.concatenate([np.asarray(st.params['a'], np.float64), np.asarray(st.params['b'], np.float64)])
+      rec = []
+      for c in ev:
+        if c['id'] not in seen:
+          held_out_evaluated = True
+        coefs, cp = t.get(c['id'], ([0.0, 0.0], sp)) if c['id'] in seen else ([0.0, 0.0], sp)
+        a = np.asarray([coefs[0], coefs[0], coefs[1]])
+        labels = (np.asarray(c['y']) > 0).astype(int)
+        lo, unsure = accuracy_bounds(a * cp + (1 - a) * sp, c['x'], labels)
+        acc = float(res[c['id']]['accuracy'].result())
+        if not (lo - 1e-3 <= acc * len(labels) <= lo + unsure + 1e-3):
+          problems.append(f'{where}: client {c["id"]} accuracy {acc} but its interpolated model (stored state, or the '
+                          f'server model for a client without state) classifies {lo}..{lo + unsure} of {len(labels)} right')
+        rec.append((c['id'], c['x'], labels.tolist(), acc))
+      eval_log.append((slot, rec))
+      ctx.count('apfl_evaluations')
+
     for ri, cohort in enumerate(case['rounds']):
+      evaluation(ri, state)
+      if problems:
+        break
       clients, keys, tl, pl = self._clients(case, ri, 3)
       try:
         with Watchdog(30):
@@ -410,11 +512,8 @@ class C17(core.Property):
       for c in cohort:
         if c['id'] not in seen:
           seen.append(c['id'])
-      table = {}
-      for cid, cs in state.client_states.items():
-        coefs = [float(np.asarray(cs.interpolation_coefficients[k])) for k in ('a', 'b')]
-        cp = np.concatenate([np.asarray(cs.params['a'], np.float64), np.asarray(cs.params['b'], np.float64)])
-        table[cid] = (coefs, cp)
+      table = table_of(state)
+      for cid, (coefs, cp) in table.items():
         for v in coefs:
           if not (np.isfinite(v) and 0.0 <= v <= 1.0):
             problems.append(f'round {ri}: client {cid} stores interpolation coefficient {v} outside [0, 1]')
@@ -439,8 +538,11 @@ class C17(core.Property):
         if keyed:
           tab += self.chain_apfl(keys[j], path, len(train) + 1, 3)
       mcohorts.append([cl, self.enc_tab(tab)])
+    if not problems:
+      evaluation(len(case['rounds']), state)
     tags.append(f'coefficient_moved={moved}')
     tags.append(f'coefficient_hit_bound={clipped_edge}')
+    tags.append(f'held_out_client_evaluated={held_out_evaluated}')
     if not problems:
       ans = ctx.drv.ask1('c12.apfl', keyed, opt_code(case['copt']), opt_code(case['sopt']), case['coef0'], [2, 1],
                          [float(v) for v in w0], mcohorts)
@@ -460,6 +562,22 @@ class C17(core.Property):
             break
         if corr:
           break
+      # the evaluations: the model evaluates every client with its stored state (or the default for a client without
+      # state) interpolated with the server params, and leaves the table alone (C17_eval_frame)
+      if not corr and eval_log:
+        lines = []
+        for slot, rec in eval_log:
+          mparams, mtable = ([float(v) for v in w0], []) if slot == 0 else (ans[slot - 1][0], ans[slot - 1][2])
+          lines.append(core.line('c17.apfl_eval', [2, 1], mparams, mtable, [r[0] for r in rec]))
+        for (slot, rec), pers in zip(eval_log, ctx.drv.ask(lines)):
+          for (cid, x, labels, acc), mp in zip(rec, pers):
+            lo, unsure = accuracy_bounds([float(v) for v in mp], x, labels)
+            if not (lo - 1e-3 <= acc * len(labels) <= lo + unsure + 1e-3):
+              corr.append(f'evaluation slot {slot}: client {cid}: impl accuracy {acc}, model params {[float(v) for v in mp]} '
+                          f'classify {lo}..{lo + unsure} of {len(labels)} right')
+              break
+          if corr:
+            break
       ctx.count('model_apfl')
     return Outcome(oracle_fail='; '.join(problems[:2]) or None, corr_fail='; '.join(corr[:2]) or None,
                    nontrivial=bool(moved), tags=tuple(tags), detail={'impl': impl})
@@ -481,7 +599,52 @@ class C17(core.Property):
     impl, mcohorts = [], []
     saw_empty = saw_update = near_tie = False
     scale = 1.0 + float(np.max(np.abs(case['clusters'])))
+    evals = case.get('evals') or [[] for _ in range(len(case['rounds']) + 1)]
+
+    def raw_of(st):
+      return [(np.asarray(p['w']).tobytes(), [np.asarray(l).tobytes() for l in self.jax.tree_util.tree_leaves(o)])
+              for p, o in zip(st.cluster_params, st.opt_states)]
+
+    def evaluation(slot, st):
+      """the real HypClusterEvaluator on `st`: every client is scored on the cluster of minimal average loss and
+      no cluster (params, optimizer state) is touched"""
+      ev = evals[slot] if slot < len(evals) else []
+      if not ev:
+        return
+      before = raw_of(st)
+      ekeys = self.jax.random.split(self.jax.random.PRNGKey(case['key_seed'] + 100 + slot), len(ev))
+      train_c = [(c['id'], self.cds.ClientDataset({'x': np.asarray(c['x'], np.float32).reshape(len(c['y']), 2),
+                                                   'y': np.asarray(c['y'], np.float32)}), ekeys[j])
+                 for j, c in enumerate(ev)]
+      test_c = [(c['id'], self.cds.ClientDataset({'x': np.asarray(c['x'], np.float32).reshape(len(c['y']), 2),
+                                                  'y': (np.asarray(c['y']) > 0).astype(np.int32)})) for c in ev]
+      res = dict(self.hyp_eval.evaluate_clients(st.cluster_params, train_c, test_c,
+                                                self.cds.PaddedBatchHParams(batch_size=2)))
+      where = f'evaluation before round {slot}' if slot < len(case['rounds']) else 'evaluation after the last round'
+      if len(st.cluster_params) != K or len(st.opt_states) != K or raw_of(st) != before:
+        problems.append(f'{where}: evaluation changed the clusters (params / optimizer states) it was given')
+      cps = [np.asarray(p['w'], np.float64) for p in st.cluster_params]
+      for c in ev:
+        x, y = np.asarray(c['x'], np.float64), np.asarray(c['y'], np.float64)
+        losses = [float(np.mean(0.5 * (x @ b - y) ** 2)) for b in cps]
+        best = [k for k in range(K) if losses[k] <= min(losses) + 1e-4 * (1 + min(losses))]
+        labels = (y > 0).astype(int)
+        acc = float(res[c['id']]['accuracy'])
+        ok = False
+        for k in best:
+          pred = x @ cps[k]
+          unsure = np.abs(pred) < 1e-4 * (1.0 + float(np.max(np.abs(cps[k]))))
+          lo = int(np.sum(((pred > 0).astype(int) == labels) & ~unsure))
+          ok = ok or (lo - 1e-3 <= acc * len(labels) <= lo + int(np.sum(unsure)) + 1e-3)
+        if not ok:
+          problems.append(f'{where}: client {c["id"]} scored {acc}, which is not the accuracy of a cluster of minimal '
+                          f'average loss (losses {losses})')
+      ctx.count('hyp_evaluations')
+
     for ri, cohort in enumerate(case['rounds']):
+      evaluation(ri, state)
+      if problems:
+        break
       clients, keys, tl, pl = self._clients(case, ri, 2)
       before = [np.asarray(p['w'], np.float64) for p in state.cluster_params]
       before_raw = [(np.asarray(p['w']).tobytes(),
@@ -540,6 +703,8 @@ class C17(core.Property):
       mcohorts.append([[[c['id'], len(c['y']), [self.rows(b) for b in tl[j]], bits(self.client_path(j)),
                          [list(map(float, xr)) + [float(yv)] for xr, yv in zip(c['x'], c['y'])]]
                         for j, c in enumerate(cohort)], []])
+    if not problems:
+      evaluation(len(case['rounds']), state)
     tags += [f'empty_cluster={saw_empty}', f'near_tie={near_tie}']
     if not problems and not near_tie:
       ans = ctx.drv.ask1('c12.hyp', False, opt_code(case['copt']), opt_code(case['sopt']),
@@ -582,6 +747,11 @@ class C17(core.Property):
       with Watchdog(30):
         state, diag = alg.apply(state, clients)
       after = np.asarray(state.params['w'], np.float64)
+      if clip == 0 and any('clipped_delta_l2_norm' in diag[c['id']] and float(diag[c['id']]['delta_l2_norm']) == 0
+                           for c in cohort):
+        # a zero delta (e.g. a client whose gradient vanishes) clipped to the bound 0 is 0/0 in
+        # tree_clip_by_global_norm: outside the property ("below the bound"), as for an empty client
+        return Outcome(nontrivial=False, tags=tuple(tags + ['clip0_zero_delta=outside_domain']), detail={'impl': impl})
       # reference: frozen-state local steps, clip, weighted mean (key-free loss only)
       num, tot = np.zeros(2), 0.0
       for j, c in enumerate(cohort):
